@@ -55,7 +55,7 @@ from vf import harness
 from vf import progen
 from vf import shrink as shrinker
 
-C01_EXCL = ('no_try_else', 'no_for_target_rebind', 'no_lambda_capture_across_rebind', 'no_impure_chain_middle',
+C01_EXCL = ('no_for_target_rebind', 'no_lambda_capture_across_rebind', 'no_impure_chain_middle',
             )
 # exclusion flags of the LISTS findings (see the L<nn> replays under replays/C01)
 LIST_EXCL = (
